@@ -47,6 +47,21 @@ CLAIMS = {
         "note": TRUSTED,
         "technique": "CFG pairing (release post-dominates acquire on all exits), computed producer/consumer policy, sibling agreement of constructors, who-may-call for YAML loads",
     },
+    "C10": {
+        "text": "Exhaustiveness / guard / error-discipline analysis of the link machinery in the current source: the "
+                "parser's token dispatch covers every Token.is_* kind (content-bearing tokens yield or raise, none is "
+                "dropped) and every NodeType variable or ends in raise; link values flow into the derived case only under "
+                "isinstance(.., Ok) and a not-UNRESOLVABLE test, link bodies likewise, merge order lets the link value win, "
+                "values are passed as explicit containers; evaluation errors become Err(exc), parse errors become "
+                "InvalidTransition at link construction, invalid links become InvalidStateMachine; link status filters use "
+                "the same expand_status_code as the conformance check and `default` excludes exactly the other documented "
+                "codes; evaluate() keeps single-node types and turns any unresolvable part into UNRESOLVABLE before "
+                "concatenation. Not decided: evaluation semantics of each node (JSON pointer escapes, regex extractors), "
+                "scenario histories.",
+        "design_ref": "DESIGN.md §4 C10",
+        "note": TRUSTED,
+        "technique": "exhaustiveness of if/elif dispatch over enum-like domains, guard-dominance of link value uses, catch-all/no-drop of evaluation errors, sibling agreement of status matching",
+    },
     "C11": {
         "text": "Protocol-shape analysis: the events a function can emit on any path (normal, anticipated-fault and "
                 "explicit-raise paths; callees that emit are inlined) form an NFA that is checked for inclusion in a "
